@@ -17,7 +17,7 @@ BUDGET = {"quick": 60.0, "thorough": 840.0}
 
 OPS = "SRLBDUEVNXC"
 OPS_TEXT = ("S single new point (tuple); R single repeated point; L single new point passed as list/ndarray; B batch of 2-4 new tuples; "
-            "D batch of tuples mixing old points, new points and a duplicate; U batch passed as list of lists / (n,d) ndarray; E empty batch; "
+            "D batch of tuples mixing old points, new points and a duplicate (40%: only old points); U batch passed as list of lists / (n,d) ndarray; E empty batch; "
             "V eval_vectorized on an (n,d) array, n in 0..4; N eval_vectorized on an (m,n,d) array; X reset_dictionary; C deactivate_caching")
 
 BOUND = ("every class of sparseSpACE/Function.py (33 classes, 1-4 parameter choices each, d in {1,2,3} where the class allows; "
@@ -332,6 +332,9 @@ def run_seq(ctx, cfg, ops, seed):
         elif op in "BDU":
             if op == "B":
                 pts = new_points(rng.randint(2, 4))
+            elif op == "D" and pool and rng.random() < 0.4:
+                pts = [rng.choice(pool) for _ in range(rng.randint(1, 3))]          # only points evaluated before (any path)
+                pts.append(rng.choice(pts))
             elif op == "D":
                 pts = [old_or_new() for _ in range(rng.randint(1, 2))] + new_points(rng.randint(1, 2))
                 pts.append(rng.choice(pts))
